@@ -18,7 +18,7 @@ RULE = ("every history up to the depth bound over add/remove of (handler, "
 EXPLANATION = ("direct exploration; reference = registration counters + "
                "reachability interpreter; failure atomicity via whole-pool "
                "notifier fingerprint equality")
-BOUNDS = {"quick": "depth 3 over ~45 events with dedup",
+BOUNDS = {"quick": "depth 3 over ~115 events with dedup (three node classes) + lifetime, anytrait, own-dispatcher and property-link cells",
           "thorough": "depth 4 with dedup"}
 ASSUMPTIONS = ["main-thread dispatch (ui dispatch is immediate)",
                "pool of 3 objects, 2 handlers"]
